@@ -1,6 +1,7 @@
 package rules
 
 import (
+	"go/token"
 	"sort"
 	"strings"
 
@@ -64,6 +65,15 @@ func c26(c *engine.Ctx) {
 		}
 		ok := cancel != nil && cl != nil && engine.Dominates(cancel, cl) && engine.Describe(cancel.Common().Args[0]) == "g:rpc.ErrEngineClosed"
 		c.Check(ok, "C26.R1", "ForceClose/cancel-with-cause-before-close", fc.Pos(), "ForceClose must call reqCancel(ErrEngineClosed) before waiting in Close")
+		// … on every path: a ForceClose that returns without cancelling leaves
+		// the pending calls (and a Close already waiting for them) stranded
+		uncond := cancel != nil
+		for _, r := range exits(fc) {
+			if cancel != nil && (engine.PathQuery{Fn: fc, Barrier: func(i ssa.Instruction) bool { return i == cancel.(ssa.Instruction) }}).Reaches(r) {
+				uncond = false
+			}
+		}
+		c.Check(uncond, "C26.R1", "ForceClose/cancels-on-every-path", fc.Pos(), "every path through ForceClose must call reqCancel (also when a graceful Close is already in progress)")
 	}
 	if nw := c.MustFunc("C26.R1", "rpc", "New"); nw != nil {
 		ok := false
@@ -209,6 +219,56 @@ func c26(c *engine.Ctx) {
 	c26R4(c, do, doSel)
 	// ---- R5 "acknowledged" is what the classification keys on: ack bookkeeping (shared with C25.R4)
 	c25R4(c, "C26.R5")
+	// ---- R6 who may produce the retryable error. The classification of R3
+	// means "nothing acknowledged was lost" only if ErrEngineClosed reaches a
+	// caller from the two engine sites decided above and from nowhere else:
+	// every other reference may only be the target of errors.Is.
+	n6 := 0
+	for _, p := range []string{"rpc", "pool", "telegram", "mtproto"} {
+		for _, f := range allFunctions(c, c.SSA[p]) {
+			for _, g := range engine.WithAnon(f) {
+				engine.Instrs(g, func(i ssa.Instruction) {
+					ld, ok := i.(*ssa.UnOp)
+					if !ok || ld.Op != token.MUL {
+						return
+					}
+					gl, isG := ld.X.(*ssa.Global)
+					if !isG || gl.Name() != "ErrEngineClosed" || gl.Pkg == nil || !strings.HasSuffix(gl.Pkg.Pkg.Path(), "/rpc") {
+						return
+					}
+					for _, ref := range *ld.Referrers() {
+						n6++
+						okRef, why := false, "flows into "+ref.String()
+						switch r := ref.(type) {
+						case *ssa.Call:
+							id := engine.CalleeID(r.Common())
+							a := r.Common().Args
+							if strings.HasSuffix(id, "errors.Is") && len(a) == 2 && a[1] == ssa.Value(ld) && a[0] != ssa.Value(ld) {
+								okRef = true
+							}
+							if p == "rpc" && engine.FuncID(g) == "(*rpc.Engine).ForceClose" && descCell(r.Common().Value) == "p:e.reqCancel" {
+								okRef = true
+							}
+						case *ssa.Store:
+							// the error result spilled for the deferred calls
+							_, slot := r.Addr.(*ssa.Alloc)
+							okRef = slot && r.Val == ssa.Value(ld) && p == "rpc" && engine.FuncID(g) == "(*rpc.Engine).Do" && engine.GuardedBy(r, func(k engine.Cmp) bool {
+								b, isB := engine.ConstBool(k.Y)
+								return isB && b && engine.Describe(k.X) == "p:e.closed"
+							})
+						case *ssa.Return:
+							okRef = p == "rpc" && engine.FuncID(g) == "(*rpc.Engine).Do" && engine.GuardedBy(r, func(k engine.Cmp) bool {
+								b, isB := engine.ConstBool(k.Y)
+								return isB && b && engine.Describe(k.X) == "p:e.closed"
+							})
+						}
+						c.Check(okRef, "C26.R6", engine.FuncID(g)+"/ErrEngineClosed#"+ordinal(g, ld), ld.Pos(), "rpc.ErrEngineClosed may be produced only by Do on a closed engine and as ForceClose's cancel cause; elsewhere it may only be tested with errors.Is (%s)", why)
+					}
+				})
+			}
+		}
+	}
+	c.Floor("C26.R6", 4, n6)
 }
 
 func c26R4(c *engine.Ctx, do *ssa.Function, doSel *ssa.Select) {
